@@ -1826,7 +1826,11 @@ class VM:
 
         def subarray_fn(*args):
             begin = to_integer(args[0]) if len(args) > 0 else 0
-            end = to_integer(args[1]) if len(args) > 1 else arr.length
+            end = (
+                to_integer(args[1])
+                if len(args) > 1 and args[1] is not UNDEFINED
+                else arr.length
+            )
 
             # Handle negative indices
             if begin < 0:
